@@ -586,7 +586,9 @@ attrsLoop:
 							if p.srcRewriter != nil {
 								parsedURL, err := url.Parse(u)
 								if err != nil {
-									fmt.Println(err)
+									// the normalised URL does not parse again:
+									// there is nothing to hand to the rewriter
+									break
 								}
 								p.srcRewriter(parsedURL)
 								u = parsedURL.String()
